@@ -83,20 +83,51 @@ def r1(ctx, prog, sf):
             loop = lp
     if loop is None or istart is None:
         raise AnalysisError("C03-R1: batch loop / istart not found")
-    # batch size guard
+    # batching guard:  a batch is closed when len(batch) >= G  (max length G)
+    # or  > G  (max length G+1)
     gs = None
+    extra = 0
     for s in walk_no_nested(pr.node):
         if isinstance(s, ast.If) and isinstance(s.test, ast.Compare) and \
                 norm(s.test.left).startswith("len(") and \
-                isinstance(s.test.ops[0], ast.GtE):
+                isinstance(s.test.ops[0], (ast.GtE, ast.Gt, ast.Eq)):
             gs = norm(s.test.comparators[0])
+            extra = 1 if isinstance(s.test.ops[0], ast.Gt) else 0
     idx = None
     if isinstance(loop.iter, ast.Call) and norm(loop.iter.func) == \
             "enumerate" and isinstance(loop.target, ast.Tuple):
         idx = norm(loop.target.elts[0])
     t = norm(istart).replace(" ", "")
-    ok_stride = idx is not None and gs is not None and t in (
-        "%s*%s" % (idx, gs), "%s*%s" % (gs, idx))
+    ok_stride = False
+    stride_form = idx is not None and gs is not None and \
+        isinstance(istart, ast.BinOp) and isinstance(istart.op, ast.Mult) and \
+        idx in (norm(istart.left), norm(istart.right))
+    if stride_form:
+        other = istart.right if norm(istart.left) == idx else istart.left
+        sv = prog.const_value(sf, other)
+        if sv is None and isinstance(other, ast.Name):
+            d = [x for x in walk_no_nested(pr.node) if isinstance(x, ast.Assign)
+                 and norm(x.targets[0]) == other.id]
+            if len(d) == 1:
+                sv = prog.const_value(sf, d[0].value)
+        gv = None
+        gd = [x for x in walk_no_nested(pr.node) if isinstance(x, ast.Assign)
+              and norm(x.targets[0]) == gs]
+        if len(gd) == 1:
+            gv = prog.const_value(sf, gd[0].value)
+        if norm(other) == gs and extra == 0:
+            ok_stride = True
+        elif isinstance(sv, int) and isinstance(gv, int):
+            ok_stride = sv >= gv + extra
+        if not ok_stride:
+            ctx.check("C03-R1", pr, "batch start id " + norm(istart), False,
+                      "batches hold up to %s%s islands but consecutive "
+                      "batches start only %s ids apart: the last island of "
+                      "batch k and the first island of batch k+1 receive the "
+                      "same island number" %
+                      (gs, "+1" if extra else "", norm(other)),
+                      {"istart": norm(istart), "max_batch": "%s+%d" %
+                       (gs, extra)}, c)
     # running sum idiom: a name incremented by len(<batch>) in the loop
     ok_sum = False
     if isinstance(istart, ast.Name):
@@ -109,6 +140,8 @@ def r1(ctx, prog, sf):
     if ok_stride or ok_sum:
         ctx.ob("C03-R1", pr, "batch start id " + norm(istart), True,
                {"idiom": "stride" if ok_stride else "running sum"}, c)
+    elif stride_form:
+        pass
     elif idx is not None and t == idx:
         ctx.check("C03-R1", pr, "batch start id " + norm(istart), False,
                   "batch k (of up to %s islands) is numbered from k: batch 0 "
